@@ -62,7 +62,7 @@ func TestKnown(t *testing.T)  { kit.RunKnown(t) }
 func TestReplay(t *testing.T) { kit.RunReplay(t) }
 
 func TestDocs(t *testing.T) {
-	kit.Rapid(t, "docs", 400000, 4000000, func(t *rapid.T) {
+	kit.Rapid(t, "docs", 400000, 16000000, func(t *rapid.T) {
 		cfg := gen.DrawConfig(t, gen.ConfigOpts{})
 		src, class := gen.Doc(t, gen.Any, kit.Pick(40, 120), "d")
 		run(t, cfg, src, class)
@@ -70,7 +70,7 @@ func TestDocs(t *testing.T) {
 }
 
 func TestNest(t *testing.T) {
-	kit.Rapid(t, "nest", 2000, 40000, func(t *rapid.T) {
+	kit.Rapid(t, "nest", 2000, 160000, func(t *rapid.T) {
 		cfg := gen.DrawConfig(t, gen.ConfigOpts{})
 		src := gen.Nest(t, gen.Any, 16384, "n")
 		run(t, cfg, src, "nest")
